@@ -11,7 +11,7 @@ from docs import Doc, flatten, parse_flat, replace_subtree
 
 LEAN_MODULES = ['GoSnaps.Props.C15', 'GoSnaps.Props.Tie.Flows', 'GoSnaps.Props.Tie.Matchers',
                 'GoSnaps.DriverX', 'GoSnaps.Lemmas.JsonPath', 'GoSnaps.Props.C16Json',
-                'GoSnaps.Lemmas.JsonEndToEnd', 'GoSnaps.Props.Tie.JsonEndToEnd']
+                'GoSnaps.Lemmas.JsonEndToEnd', 'GoSnaps.Props.Tie.JsonEndToEnd', 'GoSnaps.Props.Tie.Wrappers']
 
 
 def set_path(v, fp, newv):
